@@ -350,6 +350,13 @@ def gen_charclasses(repo):
         # followed (in the same or a later literal) by a `{0,n}` repetition
         lits = [unescape_rust(x, item) for x in re.findall(STR, fs)]
         cands = [m.group(1) for l in lits for m in re.finditer(r'\[([^\]]{10,})\]', l)]
+        if len(cands) == 0:
+            # the pattern assembled piece by piece with the class kept in a named string constant:
+            #   x.push('['); x.push_str(NAME); x.push_str("]{0,") …      with      const NAME: &str = "…";
+            m = re.search(r"push\('\['\)\s*;\s*\w+\.push_str\(\s*&?(\w+)\s*\)\s*;\s*\w+\.push_str\(\s*\"\]\{0,", fs)
+            if m:
+                c = re.search(r'const\s+' + m.group(1) + r"\s*:\s*&(?:'static\s+)?str\s*=\s*" + STR + r'\s*;', fs)
+                if c and len(unescape_rust(c.group(1), item)) >= 10 and "]" not in unescape_rust(c.group(1), item): cands = [unescape_rust(c.group(1), item)]
         if len(cands) != 1: raise Fail(item, f"search regex shape ({len(cands)} bracket expressions)")
         if not any("{{0,{" in l or "{0," in l for l in lits): raise Fail(item, "search regex shape (no bounded repetition)")
         if not any(l.startswith("^") or l == "^" for l in lits) and "push('^')" not in fs: raise Fail(item, "search regex shape (no anchor)")
